@@ -220,3 +220,41 @@ Proof.
   - apply (IH m o1 x2 s' _ read0 o' sz H); [lia | | lia].
     rewrite Zlen_app in Hl. lia.
 Qed.
+
+(* ---- over-run: the payload's complete records [u] stop short of [size] and the next record [rec]
+        crosses it: ValueError ---- *)
+Lemma loop_overrun sc pn lf cd : r_acct lf -> r_app lf ->
+  forall n m o u read0 read o' u' rec rest sz nw r s1 p,
+  loop_g sc pn lf cd None n o u read0 = Ok (o', u') -> (n <= m)%nat ->
+  load_varint rec = Ok (nw, r, s1) -> lf s1 nw r = Ok (p, []) ->
+  read + Zlength u < sz -> sz < read + Zlength u + Zlength rec ->
+  loop_g sc pn lf cd (Some sz) m o (u ++ rec ++ rest) read = Err EValue.
+Proof.
+  intros AC AP. induction n as [|n IH]; intros m o u read0 read o' u' rec rest sz nw r s1 p H Lm Vr Fr Hlo Hhi; [discriminate|].
+  destruct m as [|m]; [lia|]. rewrite loop_g_S in *.
+  destruct u as [|b u0].
+  - cbn [app]. destruct (lv_sound _ _ _ _ Vr) as (Er & Lr & _).
+    destruct rec as [|b rec0]; [subst; destruct r; cbn [length] in Lr; [lia | discriminate]|].
+    change ((b :: rec0) ++ rest) with ((b :: rec0) ++ rest).
+    cbn [app]. change (b :: rec0 ++ rest) with ((b :: rec0) ++ rest).
+    rewrite (lv_app _ _ _ _ rest Vr). cbn [bind]. rewrite (AP _ _ _ _ _ rest Fr). cbn [bind].
+    destruct (AC _ _ _ _ _ Fr) as (uf & Es1 & Rp & _). rewrite app_nil_r in Es1. subst uf.
+    unfold account. cbv zeta.
+    replace (sz <? read + Zlength (praw p)) with true; [reflexivity|].
+    rewrite Rp, <- Er. unfold Zlength in *. cbn [length] in *. lia.
+  - cbn [app]. change (b :: u0 ++ rec ++ rest) with ((b :: u0) ++ rec ++ rest).
+    destruct (load_varint (b :: u0)) as [[[nw' r'] s1']|] eqn:V; [|discriminate]. cbn [bind] in H.
+    rewrite (lv_app _ _ _ _ (rec ++ rest) V). cbn [bind].
+    destruct (lv_sound _ _ _ _ V) as (Es & _ & _).
+    destruct (lf s1' nw' r') as [[p' s2]|] eqn:F; [|discriminate]. cbn [bind] in H.
+    rewrite (AP _ _ _ _ _ (rec ++ rest) F). cbn [bind].
+    destruct (AC _ _ _ _ _ F) as (uf & Es1 & Rp & _).
+    assert (Hlen : Zlength (b :: u0) = Zlength (praw p') + Zlength s2).
+    { rewrite Es, Es1, Rp, !Zlen_app. lia. }
+    pose proof (Zlen_nonneg s2) as Hs2.
+    unfold account. cbv zeta. replace (sz <? read + Zlength (praw p')) with false by lia. cbn [bind].
+    unfold account in H. cbn [bind] in H.
+    destruct (step sc pn cd o p') as [o1|]; [|discriminate]. cbn [bind] in *.
+    unfold finished in *. replace (read + Zlength (praw p') =? sz) with false by lia.
+    apply (IH m o1 s2 read0 _ o' u' rec rest sz nw r s1 p H); try assumption; lia.
+Qed.
